@@ -88,10 +88,21 @@ theorem C12_flags_sound_right (op : String) (isUp isInc isNEQ : Bool) (i l : Int
 theorem C12_evalNil_eval (s : SCEV) (env : Val → Option Int) (c : Int) (h : s.evalNil = some c) :
     s.eval env = some c := by
   induction s generalizing c with
-  | addRec a b hd iha ihb => simp [SCEV.evalNil] at h
+  | addRec a b hd ty iha ihb => simp [SCEV.evalNil] at h
   | const v => simpa [SCEV.evalNil, SCEV.eval] using h
   | unknown v inv => simp [SCEV.evalNil] at h
   | generic op x y ihx ihy =>
+    simp only [SCEV.evalNil] at h
+    cases hx : x.evalNil with
+    | none => simp [hx] at h
+    | some a =>
+      cases hy : y.evalNil with
+      | none => simp [hx, hy] at h
+      | some b =>
+        simp only [hx, hy] at h
+        simp only [SCEV.eval, ihx a hx, ihy b hy]
+        exact h
+  | comm op x y ihx ihy =>
     simp only [SCEV.evalNil] at h
     cases hx : x.evalNil with
     | none => simp [hx] at h
